@@ -3,24 +3,65 @@
 //! replayed into a recording EntryWriter. See DESIGN.md §7 C03.
 
 use checks::emf_util::*;
+use metrique_writer::format::Format;
 use metrique_writer::sample::SampledFormat;
+use metrique_writer_format_emf::{Emf, SampledEmf};
+use std::sync::Arc;
+use std::sync::atomic::{AtomicU64, Ordering};
 use std::time::{Duration, Instant};
 use vcommon::recording::{ProgramEntry, log_json, record};
 use vcommon::serde_json::json;
 use vcommon::{Args, Fnv, Report, Rng};
 
-pub struct ScriptRng(pub u64);
+/// an RNG whose (constant) output is set by the harness before every entry
+pub struct ScriptRng(pub Arc<AtomicU64>);
+impl ScriptRng {
+    fn v(&self) -> u64 {
+        self.0.load(Ordering::Relaxed)
+    }
+}
 impl rand::RngCore for ScriptRng {
     fn next_u32(&mut self) -> u32 {
-        (self.0 >> 32) as u32
+        (self.v() >> 32) as u32
     }
     fn next_u64(&mut self) -> u64 {
-        self.0
+        self.v()
     }
     fn fill_bytes(&mut self, dst: &mut [u8]) {
         for (i, b) in dst.iter_mut().enumerate() {
-            *b = (self.0 >> (8 * (i % 8))) as u8;
+            *b = (self.v() >> (8 * (i % 8))) as u8;
         }
+    }
+}
+
+/// The formatters under test live as long as their configuration is in use: entries are
+/// formatted one after the other by the same object, with output failures in between.
+struct Formatters {
+    plain: Emf,
+    sampled: SampledEmf<ScriptRng>,
+    draw: Arc<AtomicU64>,
+}
+
+/// an output that accepts `budget` bytes and then fails every write
+struct FailingOutput {
+    budget: usize,
+    written: usize,
+}
+impl std::io::Write for FailingOutput {
+    fn write(&mut self, buf: &[u8]) -> std::io::Result<usize> {
+        if self.written + buf.len() > self.budget {
+            let n = self.budget - self.written;
+            if n == 0 {
+                return Err(std::io::Error::other("injected output failure"));
+            }
+            self.written += n;
+            return Ok(n);
+        }
+        self.written += buf.len();
+        Ok(buf.len())
+    }
+    fn flush(&mut self) -> std::io::Result<()> {
+        Ok(())
     }
 }
 
@@ -41,23 +82,22 @@ fn inv_floor_ceil(rate: f32) -> (u64, u64) {
     (fl as u64, ce as u64)
 }
 
-fn check_one(cfg: &Cfg, e: &ProgramEntry, sampling: Option<(f32, u64)>, start_millis: u128, rep: &Report) -> bool {
+fn check_one(cfg: &Cfg, fm: &mut Formatters, history: &str, e: &ProgramEntry, sampling: Option<(f32, u64)>, start_millis: u128, rep: &Report) -> bool {
     let log = record(e);
     let v = validity(&log, cfg);
     if v != Validity::Valid {
         rep.inconclusive(&format!("generator produced an entry outside the valid domain: {v:?} (harness error)"));
         return false;
     }
-    let mut emf = cfg.build();
     let (res, bytes, candidates): (FmtResult, Vec<u8>, Vec<Option<u64>>) = match sampling {
         None => {
-            let (r, b) = format_to_vec(&mut emf, e);
+            let (r, b) = format_to_vec(&mut fm.plain, e);
             (r, b, vec![None])
         }
         Some((rate, draw)) => {
-            let mut s = emf.with_sampling_and_rng(ScriptRng(draw));
+            fm.draw.store(draw, Ordering::Relaxed);
             let mut out = vec![];
-            let r = s.format_with_sample_rate(e, &mut out, rate);
+            let r = fm.sampled.format_with_sample_rate(e, &mut out, rate);
             let (fl, ce) = inv_floor_ceil(rate);
             (
                 match r {
@@ -81,7 +121,7 @@ fn check_one(cfg: &Cfg, e: &ProgramEntry, sampling: Option<(f32, u64)>, start_mi
             )
         }
     };
-    let witness = |what: &str| json!({"what": what, "cfg": cfg.json(), "entry": e.json(), "recorded_log": log_json(&log), "sampling": format!("{sampling:?}"), "result": format!("{res:?}"), "output": short(&bytes)});
+    let witness = |what: &str| json!({"what": what, "earlier_uses_of_this_formatter": history, "cfg": cfg.json(), "entry": e.json(), "recorded_log": log_json(&log), "sampling": format!("{sampling:?}"), "result": format!("{res:?}"), "output": short(&bytes)});
     if res != FmtResult::Ok {
         rep.violation("valid-entry-rejected", witness("an entry inside the documented domain was not accepted"));
         return false;
@@ -126,7 +166,7 @@ fn main() {
     rep.rule(
         "generated entries inside the documented domain (unique names, declared dimensions written as strings, per-metric dimensions only with \
          split or ignored-dimension mode, optional entry dimensions, any observations incl. NaN/inf/zero occurrences/u64 above 2^53, any unit, flags) x all formatter \
-         configurations x sampling with a scripted RNG; oracle: the parsed records equal (as a multiset) the records computed by an independent reference \
+         configurations x sampling with a scripted RNG; one formatter object serves the 1-6 entries of a configuration, with injected output failures (Io errors) in between; oracle: the parsed records equal (as a multiset) the records computed by an independent reference \
          from the entry's recorded call log: members, exact number tokens, Values/Counts, unit/StorageResolution definitions in every namespace, dimension sets, Timestamp, LogGroupName. \
          distinct = distinct (entry shape, configuration) hashes",
     );
@@ -143,8 +183,26 @@ fn main() {
                     let validate = *rng.pick(&[Validate::All, Validate::Off, Validate::BuilderDefault, Validate::BuilderSkipFalse]);
                     let hostile = rng.bool();
                     let cfg = gen_cfg(&mut rng, hostile, validate);
+                    let draw = Arc::new(AtomicU64::new(0));
+                    let mut fm = Formatters { plain: cfg.build(), sampled: cfg.build().with_sampling_and_rng(ScriptRng(draw.clone())), draw };
+                    let mut history = String::new();
                     for _ in 0..1 + rng.below(6) {
                         let (ht, big) = (rng.bool(), rng.below(50) == 0);
+                        if rng.below(4) == 0 {
+                            // the output breaks while some entry is being written: an I/O error (never a
+                            // validation error) is reported, and the formatter must be as good as new afterwards
+                            let victim = gen_valid_entry(&mut rng, &cfg, ht, false);
+                            let budget = if rng.bool() { rng.usize_below(60) } else { rng.usize_below(1500) };
+                            let mut out = FailingOutput { budget, written: 0 };
+                            let use_sampled = rng.bool();
+                            let r = if use_sampled { fm.sampled.format_with_sample_rate(&victim, &mut out, 1.0) } else { fm.plain.format(&victim, &mut out) };
+                            if let Err(metrique_writer::IoStreamError::Validation(v)) = &r {
+                                rep.violation("valid-entry-rejected", json!({"what": "formatting a valid entry into a failing output reported a validation error", "error": v.to_string(), "entry": victim.json(), "cfg": cfg.json()}));
+                                return;
+                            }
+                            rep.count(if r.is_err() { "output_failures_injected" } else { "output_failure_budget_not_reached" }, 1);
+                            history.push_str(&format!("[{} formatter: output failed after {budget} bytes -> {}] ", if use_sampled { "sampled" } else { "plain" }, if r.is_err() { "Io error" } else { "fit" }));
+                        }
                         let e = gen_valid_entry(&mut rng, &cfg, ht, big);
                         let sampling = match rng.below(3) {
                             0 => Some((
@@ -161,9 +219,10 @@ fn main() {
                         if rep.want_sample() && rng.below(100) == 0 {
                             rep.sample(|| json!({"cfg": cfg.json(), "entry": e.json(), "sampling": format!("{sampling:?}")}));
                         }
-                        if !check_one(&cfg, &e, sampling, start_millis, rep) {
+                        if !check_one(&cfg, &mut fm, &history, &e, sampling, start_millis, rep) {
                             return;
                         }
+                        history.push_str(if sampling.is_some() { "[sampled: entry ok] " } else { "[plain: entry ok] " });
                     }
                 }
             });
